@@ -112,6 +112,43 @@ Definition code_guarded : bool :=
 Definition code_disc : disc := if code_guarded then Guarded else Unguarded.
 
 (* ---- the access sequences the step function of Conc.v mirrors ------------- *)
+(* What is compared with the regenerated tables, and what is not (conc3).
+
+   Compared token by token, in source order (= the ORDER of cache operations that one step of
+   the machine of Conc.v stands for): hook points, lock operations, lookups in / inserts into /
+   deletes from the maps (read:/write:/delete: packages, Schemas, Packages), writes of
+   RefSchema.To (write:To: the publication of a built schema), assignments to fields of the
+   cache (setfield:), and calls of other functions of the tables (call:).
+
+   Projected away: read:To, a READ of RefSchema.To.  Where such a read stands cannot matter
+   for the property as long as the function it stands in runs only with sc.mu held:
+     - no race: To is written, on the path of a codec call, by locked functions only
+       (census: lf_writes_nothing; its writers among the locked functions are the four
+       functions of the tables, lk_writes_to_fresh), so the read is ordered with every write
+       by the mutex;
+     - no dependence on the schedule: under the lock the value read is that of a cell
+       linked by a completed call (immutable from then on, write_once) or of a cell of the
+       lock holder's own build — a function of the state the critical section started in
+       (ginv: every entry is linked when the lock is free) and of the holder's own steps.
+   The side condition is NOT assumed: [projected_reads_ok] (ConcState.v, part of census_ok,
+   over the regenerated census) demands that every function of the tables with a read:To
+   token is not among the functions a codec call can run without entering
+   SchemaCache.Schema, that an exported one is one critical section (entry_locked on the RAW
+   tokens), and code_guarded / schema_body_ok keep looking at the raw, unprojected tokens.
+   What the projection buys: an extra (or a dropped) look at To inside an already locked
+   function — such as the type check `ref.To.( *EnumSchema )` that /repo 32db692 added to
+   buildEnumFieldSchema — no longer breaks an agreement lemma; a moved Unlock, a new map
+   access, a new writer, a new function on the path, a changed order of hooks still do. *)
+Definition is_projected_read (t : string) : bool := String.eqb t "read:To".
+
+Definition has_projected_read (toks : list string) : bool := existsb is_projected_read toks.
+
+Definition project (toks : list string) : list string :=
+  filter (fun t => negb (is_projected_read t)) toks.
+
+Definition project_tab (tab : fn_table) : fn_table :=
+  map (fun f => (fst f, project (snd f))) tab.
+
 Definition expected_cache_methods : fn_table := [
   (* take the lock; registered = registered[:0]; build; on error delete the registered refs; registered = nil *)
   ("Schema", true, ["hook:schema.enter"; "lock"; "defer-unlock"; "setfield:registered"; "call:schemaLocked";
@@ -119,15 +156,27 @@ Definition expected_cache_methods : fn_table := [
   ("refTo", false, ["call:referencePackage"; "hook:refto.lookup"; "read:Schemas"; "hook:refto.insert"; "write:Schemas";
                     "setfield:registered"]);
   ("referencePackage", false, ["read:packages"; "write:packages"]);
-  ("schemaLocked", false, ["call:referencePackage"; "hook:cache.lookup"; "read:Schemas"; "read:To"; "read:To";
+  (* lookup (hit: To is looked at — nil: "unlinked ref", typed nil: no schema; both only without the
+     lock — and returned); insert the placeholder; build; To = result (or the typed nil of a failed
+     build); To is looked at again and returned *)
+  ("schemaLocked", false, ["call:referencePackage"; "hook:cache.lookup"; "read:Schemas";
                            "hook:cache.insert"; "write:Schemas"; "setfield:registered"; "write:To"; "write:To";
-                           "hook:cache.linked"; "read:To"; "read:To"; "read:To"])
+                           "hook:cache.linked"])
 ].
 
-(* the placeholder sites of the on-demand builder (SchemaSetFromFiles builds a private SchemaSet) *)
+(* the placeholder sites of the on-demand builder (SchemaSetFromFiles builds a private SchemaSet).
+   buildEnumFieldSchema since /repo 32db692: when newRefPlaceholder found the ref (didExist), To is
+   looked at (`ref.To.( *EnumSchema )`, an error if it is something else) — in the machine: the hit
+   branch of the PRefLookup step, for a name without references; there is no hook point between
+   refto.lookup and this read, so it belongs to that step, inside the critical section
+   (proofs/ConcLeafProofs.v: the cell found there is linked in every state of the machine).
+   buildMessageFieldSchema since /repo d286176: the mirror guard in its didExist branch
+   (`ref.To.( *EnumSchema )` must fail; To == nil — a type being built further up the holder's own
+   stack — passes) — the hit branch of PRefLookup for any name; it landed while this projection was
+   being tested and needed no table update *)
 Definition expected_placeholder_functions : fn_table := [
   ("SchemaSetFromFiles", true, ["call:newRefPlaceholder"; "write:To"]);
-  ("buildEnumFieldSchema", false, ["call:newRefPlaceholder"; "write:To"; "hook:ref.linked"; "read:To"]);
+  ("buildEnumFieldSchema", false, ["call:newRefPlaceholder"; "write:To"; "hook:ref.linked"]);
   ("buildMessageFieldSchema", false, ["call:newRefPlaceholder"; "write:To"; "write:To"; "hook:ref.linked"]);
   ("messageProperties", false, ["call:newRefPlaceholder"; "write:To"; "hook:ref.linked"]);
   ("newRefPlaceholder", false, ["call:refTo"])
